@@ -33,6 +33,7 @@ type vC11 struct {
 	sleepArg      time.Duration
 	cancelCalls   int
 	runners       map[*PipelineJob]*vRunner
+	neverEnding   bool
 }
 
 var vS *vC11
@@ -53,6 +54,11 @@ func vScheduleThreaded(s *taskctl.Scheduler, g interface{}) error {
 	vr := vS.runners[job]
 	vj := vW.byJob(job)
 	verifYield()
+	if vS.forced && vS.neverEnding && vr != nil {
+		// a job that only ends when it is told to stop (forced variant only: the graceful variant
+		// presumes that tasks terminate)
+		verifBlockUntil(func() bool { return vr.cancelled })
+	}
 	verifAssert(!vS.shutdownRet, "C11.no-task-executing-after-shutdown-returned")
 	if vj != nil {
 		vj.returned = true
@@ -107,6 +113,20 @@ func VerifC11Shutdown() {
 	}
 	w.r = r
 	w.scanSpawned() // the persist loop goroutine is an "other" goroutine
+	// a second, idle pipeline with one finished job (from an earlier run); whether it comes before or
+	// after the focal pipeline in the runner's maps is a choice
+	w.defs.Pipelines["q"] = definition.PipelineDef{Concurrency: 1, Tasks: map[string]definition.TaskDef{"t": {Script: []string{"x"}}}}
+	idle := func() {
+		fin := &PipelineJob{ID: vID(99), Pipeline: "q", Completed: true, Created: verifTime(1), Tasks: jobTasks{{Name: "t", Status: "done"}}}
+		st := verifTime(2)
+		fin.Start, fin.End = &st, &st
+		r.jobsByID[fin.ID] = fin
+		r.jobsByPipeline["q"] = append(r.jobsByPipeline["q"], fin)
+	}
+	idleFirst := verifBound("idlepipeline", 1) == 1 && verifChoose("idle-pipeline-first", 2) == 1
+	if idleFirst {
+		idle()
+	}
 	// ---- prefix: build an arbitrary state with L3 events (no reloads) ----
 	for step := 0; step < K; step++ {
 		evs := w.enabled(N, 0)
@@ -146,6 +166,9 @@ func VerifC11Shutdown() {
 		case 6:
 			w.doTaskErr(w.jobs[ev.idx])
 		}
+	}
+	if verifBound("idlepipeline", 1) == 1 && !idleFirst {
+		idle()
 	}
 	nRunning, nWaiting := 0, 0
 	for _, vj := range w.jobs {
@@ -202,7 +225,11 @@ func VerifC11Shutdown() {
 	c.forced = verifChoose("forced", 2) == 1
 	ctx := &vCtx{done: make(chan struct{})}
 	if c.forced {
+		c.neverEnding = verifChoose("running-jobs-end-only-when-stopped", 2) == 1
 		verifEvent("SHUTDOWN forced")
+		if c.neverEnding {
+			verifEvent("  running jobs end only when they are told to stop")
+		}
 		verifGo(func() {
 			verifYield()
 			for _, vj := range w.jobs {
@@ -231,6 +258,7 @@ func VerifC11Shutdown() {
 		}
 	}
 
+	verifYieldAny() // anything that is pending may happen before the shutdown call takes the lock
 	serr := r.Shutdown(ctx)
 	c.shutdownRet = true
 	verifEvent("Shutdown returned")
